@@ -26,4 +26,10 @@ D3 == Obj(<<Mem(X, Num(2, 0)),
             Mem(K3, Arr(<<Num(2, 0), Arr(<<Num(2, 0)>>), Str(<<97, 10>>)>>))>>)
 \* d2 is a distinct but equal copy of d1 (the harness materialises it separately)
 MCDocVal == [d1 |-> D1, d2 |-> D1, d3 |-> D3]
+\* the user may edit d3 in place: x becomes 1, k1.a becomes 2 (d1 and d2 are never edited)
+D3Alt == Obj(<<Mem(X, Num(1, 0)),
+               Mem(K1, Obj(<<Mem(A, Num(2, 0))>>)),
+               Mem(K2, Obj(<<Mem(A, Num(2, 0)), Mem(S, Str(<<97>>))>>)),
+               Mem(K3, Arr(<<Num(2, 0), Arr(<<Num(2, 0)>>), Str(<<97, 10>>)>>))>>)
+MCDocAlt == [d1 |-> D1, d2 |-> D1, d3 |-> D3Alt]
 =============================================================================
